@@ -340,10 +340,15 @@ class ValueArgsError(Exception):
     """
 
     def __init__(self, arg_name, arg_value, return_value = None):
+        # The value may not have a JSON form (non-finite number, cyclic container, out-of-range datetime)
+        try:
+            arg_json = value_json(arg_value)
+        except Exception: # pylint: disable=broad-exception-caught
+            arg_json = f'<{value_type(arg_value)}>'
         if arg_name is None:
-            message = f'Too many arguments ({value_json(arg_value)})'
+            message = f'Too many arguments ({arg_json})'
         else:
-            message = f'Invalid "{arg_name}" argument value, {value_json(arg_value)}'
+            message = f'Invalid "{arg_name}" argument value, {arg_json}'
         super().__init__(message)
         self.return_value = return_value
 
